@@ -313,7 +313,7 @@ func joinFilter(a []any, sep func(string) string) any {
 	for _, v := range a {
 		// resolve drops and pointers, as rendering an object does
 		if v = values.ValueOf(v).Interface(); v != nil {
-			ss = append(ss, fmt.Sprint(v))
+			ss = append(ss, values.Sprint(v))
 		}
 	}
 	return strings.Join(ss, s)
